@@ -359,8 +359,12 @@ impl StakeScen {
         for _ in 0..1000 {
             match self.list_members(cursor.clone(), limit) {
                 Some(p) if !p.is_empty() => {
-                    cursor = Some(p.last().unwrap().split(':').next().unwrap().to_string());
+                    let next = Some(p.last().unwrap().split(':').next().unwrap().to_string());
                     members.extend(p);
+                    if next == cursor {
+                        break; // no progress (a defect in the code under test): do not walk forever
+                    }
+                    cursor = next;
                 }
                 _ => break,
             }
